@@ -86,6 +86,11 @@ FAMILIES = [
     ['"\\""', "/[a-z]+/", '"<"'],
     ['"\\\\"', '"\\""'],
     ['"a\\""', '"\\"a"', '"a"'],
+    # two literals written differently that denote the same characters (an escaped ordinary character): a real conflict, with
+    # and without a pattern that matches the text too
+    ['"+"', '"\\+"', "/[a-z]+/"],
+    ['"a"', '"\\a"'],
+    ['"if"', '"i\\f"', "/[a-z]+/"],
     # disjoint
     ['"if"', '"then"', "/[0-9]+/"],
     # keyword vs identifier
